@@ -547,6 +547,12 @@ func (b *txBuilder) data(spec *TxSpec, sender types.Address) (interface{}, map[s
 		return d, abs
 	case "SellSwapPool":
 		d := transaction.SellSwapPoolDataV260{Coins: b.coins(a["coins"]), ValueToSell: b.amt(a["value"]), MinimumValueToBuy: b.amt(a["min"])}
+		if f, ok := a["fill"].(map[string]interface{}); ok && len(d.Coins) == 2 {
+			// the amount is found by searching the node's own order-book calculator (see sellTarget)
+			if v := b.sellTarget(d.Coins[0], d.Coins[1], f); v != nil {
+				d.ValueToSell = v
+			}
+		}
 		abs["coins"] = coinStrs(d.Coins)
 		setAmt("value", d.ValueToSell)
 		setAmt("min", d.MinimumValueToBuy)
@@ -697,4 +703,68 @@ func (b *txBuilder) Build(spec TxSpec) *BuiltTx {
 	}
 	b.built[spec.ID] = bt
 	return bt
+}
+
+// sellTarget finds, by bisection over the node's read-only calculator CalculateBuyForSellWithOrders, the amount of coin c0
+// to sell into pool (c0, c1) that reaches a given point of the order book:
+//
+//	{"cross": n, "extra": amount}     the smallest amount that consumes n orders completely, plus `extra`
+//	{"order": id, "leave": amount}    the smallest amount that leaves at most `leave` of order id's escrow unfilled
+//
+// Returns nil when the book has no such point (the caller keeps the plain value).
+func (b *txBuilder) sellTarget(c0, c1 types.CoinID, f map[string]interface{}) *big.Int {
+	pair := b.cs.Swap().GetSwapper(c0, c1)
+	if pair == nil || !pair.Exists() {
+		return nil
+	}
+	r0, _ := pair.Reserves()
+	reached := func(x *big.Int) (ok bool) {
+		defer func() {
+			if recover() != nil { // the calculator refuses some amounts by panicking
+				ok = false
+			}
+		}()
+		_, fills := pair.CalculateBuyForSellWithOrders(new(big.Int).Set(x))
+		if id, ok := f["order"]; ok {
+			want := uint32(num(id))
+			leave := b.amt(f["leave"])
+			for _, fl := range fills {
+				if fl.ID() == want {
+					orig := b.cs.Swap().GetOrder(want)
+					if orig == nil {
+						return true
+					}
+					rest := new(big.Int).Sub(orig.WantSell, fl.WantSell)
+					return rest.Cmp(leave) <= 0
+				}
+			}
+			return false
+		}
+		n := int(num(f["cross"]))
+		full := 0
+		for _, fl := range fills {
+			if orig := b.cs.Swap().GetOrder(fl.ID()); orig != nil && orig.WantSell.Cmp(fl.WantSell) == 0 {
+				full++
+			}
+		}
+		return full >= n
+	}
+	hi := new(big.Int).Mul(r0, big.NewInt(8))
+	if hi.Sign() == 0 || !reached(hi) {
+		return nil
+	}
+	lo := big.NewInt(1)
+	for i := 0; i < 300 && lo.Cmp(hi) < 0; i++ {
+		mid := new(big.Int).Add(lo, hi)
+		mid.Rsh(mid, 1)
+		if reached(mid) {
+			hi = mid
+		} else {
+			lo = new(big.Int).Add(mid, big.NewInt(1))
+		}
+	}
+	if e, ok := f["extra"]; ok {
+		hi = new(big.Int).Add(hi, b.amt(e))
+	}
+	return hi
 }
